@@ -29,7 +29,7 @@ import traceback
 from typing import Any, Callable
 
 HERE = os.path.dirname(os.path.dirname(os.path.abspath(__file__)))
-REPO_SRC = '/repo/src'
+REPO_SRC = os.environ.get('VERIF_REPO_SRC', '/repo/src').rstrip('/')
 
 
 class Violation(Exception):
